@@ -11,7 +11,12 @@ import (
 // C07 — E2: choice-point DFS over map iteration orders. The default execution answers every choice point with
 // the canonical (insertion) order; a deviation answers one point with another permutation of the keys.
 // Deviation bound d: every execution with <= d deviating points is run and must return the byte-identical layout.
-func evalC07(depth int, grid []Cfg) func(x *Ctx, in Input) {
+func evalC07(depth int, grid []Cfg) func(x *Ctx, in Input) { return evalC07opt(depth, grid, false) }
+
+// light = true (deep inputs): deviate only at the first and the last occurrence of every range statement in the
+// default execution, and only by reversal and rotation-by-one (the two orders most likely to expose an
+// order-sensitive loop body) instead of the whole permutation family.
+func evalC07opt(depth int, grid []Cfg, light bool) func(x *Ctx, in Input) {
 	return func(x *Ctx, in Input) {
 		for _, c := range grid {
 			c := c
@@ -47,9 +52,25 @@ func evalC07(depth int, grid []Cfg) func(x *Ctx, in Input) {
 			npts := 0
 			var explore func(prefix map[int]int, from int, tr []verifrt.Point, d int)
 			explore = func(prefix map[int]int, from int, tr []verifrt.Point, d int) {
+				var firstOcc, lastOcc map[string]int
+				if light {
+					firstOcc, lastOcc = map[string]int{}, map[string]int{}
+					for i, p := range tr {
+						if _, ok := firstOcc[p.Site]; !ok {
+							firstOcc[p.Site] = i
+						}
+						lastOcc[p.Site] = i
+					}
+				}
 				for i := from; i < len(tr); i++ {
 					n := tr[i].N
+					if light && firstOcc[tr[i].Site] != i && lastOcc[tr[i].Site] != i {
+						continue
+					}
 					for alt := 1; alt < verifrt.NAlts(n); alt++ {
+						if light && alt != 1 && alt != verifrt.NAlts(n)-1 {
+							continue
+						}
 						ch := map[int]int{}
 						for k, v := range prefix {
 							ch[k] = v
@@ -113,7 +134,28 @@ func init() {
 				Bound: fmt.Sprintf("edge lists with %d edges that have >=2 components, >=2 self-loops or parallel/antiparallel edges x 12 combinations; <=1 deviation", d+1)},
 			{Name: "seeds-d1", Space: spaceSeeded(seedWitnesses, 1), Eval: evalC07(1, small), BudgetS: 10, HeapMB: 512,
 				Bound: "all states within 1 edit operation of the recorded witnesses; <=1 deviation"},
+			{Name: "G5..6-cyclic-light", Space: spaceG(5, 6, 5, func(in Input, a *Analysis) bool { return !a.DAG }), BudgetS: 10, HeapMB: 512,
+				Eval:  evalC07opt(1, gridSpec{P1: []int{0}, P2: []int{0}, P4: []int{0, 4}, P5: []int{2}, SZ: []int{1}}.list(), true),
+				Bound: "all cyclic edge lists with 5..6 edges on <=5 nodes x greedy x ns x {sink,bk}; one deviation (reversal or rotation) at the first/last occurrence of every range statement"},
 		}
+		// adversarial node names (whitespace, case, helper-node look-alikes): the caller's-data-unmodified clause and
+		// determinism must not depend on what the IDs look like
+		ps = append(ps, &Pass{Name: "G3-adversarial-names", BudgetS: 10, HeapMB: 512,
+			Space: func(emit func(Input)) {
+				pool := []string{" a", "a ", "A", "a", "\ta\n", "V1", "NE0", "", "é", "e\u0301", "0", "00", "n1"}
+				spaceG(1, 3, 0, nil)(func(in Input) {
+					n := in.N()
+					for r := 0; r < len(pool); r++ {
+						nm := make([]string, n)
+						for i := range nm {
+							nm[i] = pool[(i+r)%len(pool)]
+						}
+						emit(Input{E: in.E, Names: nm})
+					}
+				})
+			},
+			Eval:  evalC07(1, gridSpec{P1: []int{0}, P2: allP2, P4: []int{0, 3}, P5: []int{2}, SZ: []int{4}}.list()),
+			Bound: "all edge lists with <=3 edges x 13 assignments of adversarial names (leading/trailing whitespace, case variants, composed/decomposed Unicode, helper-node look-alikes, empty string) x {ns,lp} x {sink,ns}: caller's edge list and size map unmodified, <=1 deviation"})
 		if tier == "thorough" {
 			ps = append(ps, &Pass{Name: "D(6,6..7)-d1", Space: spaceD(6, 6, 7, false), BudgetS: 10, HeapMB: 512,
 				Eval:  evalC07(1, []Cfg{{P1: 0, P2: 0, P4: 1, P5: 2, SZ: 1, NS: 4, LS: 8, TH: -1}, {P1: 0, P2: 0, P4: 3, P5: 2, SZ: 1, NS: 4, LS: 8, TH: -1}}),
